@@ -1,0 +1,76 @@
+//go:build verif
+
+package jrpc2
+
+import (
+	"sort"
+	"sync/atomic"
+)
+
+// This file is compiled only with the "verif" build tag. It exposes the
+// scheduling hook and read-only state snapshots used by the external
+// verification harness; it does not change library behaviour.
+
+var verifHook atomic.Pointer[func(string)]
+
+// verifPoint reports that the calling goroutine has reached the named
+// lock-free point. No library mutex is held at any call site.
+func verifPoint(site string) {
+	if h := verifHook.Load(); h != nil {
+		(*h)(site)
+	}
+}
+
+// VerifSetHook installs f as the process-wide scheduling hook (nil removes it).
+func VerifSetHook(f func(site string)) {
+	if f == nil {
+		verifHook.Store(nil)
+		return
+	}
+	verifHook.Store(&f)
+}
+
+// VerifPoint forwards to the scheduling hook, for the sub-packages.
+func VerifPoint(site string) { verifPoint(site) }
+
+// VerifServerSnapshot is a copy of the bookkeeping state of a Server.
+type VerifServerSnapshot struct {
+	Reserved  []string // request IDs currently reserved (sorted)
+	Callbacks []string // push-call IDs awaiting a reply (sorted)
+	QueueLen  int      // inbound batches not yet dispatched
+	Running   bool     // whether the server has a channel
+}
+
+// VerifSnapshot returns a snapshot of s taken under its lock.
+func (s *Server) VerifSnapshot() VerifServerSnapshot {
+	s.mu.Lock()
+	defer s.mu.Unlock()
+	snap := VerifServerSnapshot{QueueLen: s.inq.Len(), Running: s.ch != nil}
+	for id := range s.used {
+		snap.Reserved = append(snap.Reserved, id)
+	}
+	for id := range s.call {
+		snap.Callbacks = append(snap.Callbacks, id)
+	}
+	sort.Strings(snap.Reserved)
+	sort.Strings(snap.Callbacks)
+	return snap
+}
+
+// VerifClientSnapshot is a copy of the bookkeeping state of a Client.
+type VerifClientSnapshot struct {
+	Pending []string // request IDs awaiting a reply (sorted)
+	Stopped bool     // whether the client has stopped
+}
+
+// VerifSnapshot returns a snapshot of c taken under its lock.
+func (c *Client) VerifSnapshot() VerifClientSnapshot {
+	c.mu.Lock()
+	defer c.mu.Unlock()
+	snap := VerifClientSnapshot{Stopped: c.err != nil}
+	for id := range c.pending {
+		snap.Pending = append(snap.Pending, id)
+	}
+	sort.Strings(snap.Pending)
+	return snap
+}
